@@ -476,17 +476,21 @@ struct Server {
 }
 
 fn open_server(dir: &str, storage_uri: &str, rc: &RetCfg, init: bool, tokio: &tokio::runtime::Runtime) -> Server {
+    try_open_server(dir, storage_uri, rc, init, tokio).expect("repository init")
+}
+
+fn try_open_server(dir: &str, storage_uri: &str, rc: &RetCfg, init: bool, tokio: &tokio::runtime::Runtime) -> Result<Server, String> {
     let cfg = config_for(dir, storage_uri, rc);
     let storage = StorageSystem::new(cfg.storage_uri.clone());
     let krill = KrillRuntime::new(cfg, storage, tokio.handle().clone()).expect("runtime");
     if init {
         let uris = PublicationServerUris { rrdp_base_uri: uri::Https::from_str(RRDP_BASE).unwrap(), rsync_jail: uri::Rsync::from_str(RSYNC_BASE).unwrap() };
-        krill.repo_manager().init(uris, &krill).expect("repository init");
+        krill.repo_manager().init(uris, &krill).map_err(|e| format!("repository init (first write of the empty repository): {e}"))?;
     }
     let id_cert = krill.signer().create_self_signed_id_cert().expect("id cert");
     let id_b64 = krill::api::ca::IdCertInfo::from(id_cert).base64.clone();
     let shadow = WalStore::create(krill.storage(), PUBSERVER_CONTENT_NS).expect("shadow store");
-    Server { krill, shadow, id_b64, actor: krill::constants::ACTOR_DEF_KRILL, dir: dir.to_string(), storage_uri: storage_uri.to_string(), managers: BTreeMap::new() }
+    Ok(Server { krill, shadow, id_b64, actor: krill::constants::ACTOR_DEF_KRILL, dir: dir.to_string(), storage_uri: storage_uri.to_string(), managers: BTreeMap::new() })
 }
 
 impl Server {
@@ -1113,7 +1117,10 @@ fn run(args: &Args) -> i32 {
             let dir = args.out.join(format!("srv-{}-{}-{}", args.seed, round, ci));
             let _ = std::fs::remove_dir_all(&dir);
             let dirs = dir.to_string_lossy().to_string();
-            let mut srv = open_server(&dirs, &format!("memory:{}", args.seed.wrapping_mul(7919).wrapping_add(round * 100 + ci as u64)), &chunk[0], true, &tokio);
+            let mut srv = match try_open_server(&dirs, &format!("memory:{}", args.seed.wrapping_mul(7919).wrapping_add(round * 100 + ci as u64)), &chunk[0], true, &tokio) {
+                Ok(s) => s,
+                Err(e) => { out.impl_failures.push(json!({"index": Value::Null, "class": {"kind": "write_failed", "op": "init", "f11c": false}, "what": e, "request": "RepositoryManager::init on an empty repository directory"})); continue }
+            };
             for h in ["alice", "bob"] { srv.create_publisher(h).expect("create publisher"); }
             for rc in chunk {
                 hist += 1;
